@@ -48,6 +48,10 @@
 
 # define sposSet(l, c) (((l) << SPOS_LNO_SHIFT) | ((c) << SPOS_CNO_SHIFT))
 
+/* Largest column the field can hold; larger columns are reported as this one. */
+# define SPOS_CNO_MAX	((1L << SPOS_CNO_NBITS) - 1)
+# define sposCnoFit(c)	((c) > SPOS_CNO_MAX ? SPOS_CNO_MAX : (c))
+
 SrcPos sposNone = sposSet(int0, int0);
 
 #define		TOP_LINE_NO	long0
@@ -78,10 +82,19 @@ static GLine	*gloLineTbl;
 static FileName lastfname;
 static Length	lastlno, lastftell;
 
+/*
+ * The column saturates in its own field: a column that does not fit must
+ * not carry into the line number.
+ */
 SrcPos
 sposOffset(SrcPos p, int c)
 {
-    return (((p >> SPOS_CNO_SHIFT)+c) << SPOS_CNO_SHIFT) | (p & SPOS_MAC_MASK);
+    long cno = (long) ((p & SPOS_CNO_MASK) >> SPOS_CNO_SHIFT) + c;
+
+    if (cno < 0) cno = 0;
+    cno = sposCnoFit(cno);
+
+    return (p & ~SPOS_CNO_MASK) | ((SrcPos) cno << SPOS_CNO_SHIFT);
 }
 
 Bool
@@ -311,7 +324,7 @@ sposNew(FileName fname, Length flno, Length glno, Length cno)
 	  sposGrowGloLineTbl(fname, flno, glno);
 	
 
-	return sposSet(glno, cno);
+	return sposSet(glno, sposCnoFit(cno));
 }
 
 void
@@ -332,7 +345,7 @@ sposGrowGloLineTbl(FileName fname, Length flno, Length glno)
 SrcPos
 sposGet(Length glno, Length cno)
 {
-	return sposSet(glno, cno);
+	return sposSet(glno, sposCnoFit(cno));
 }
 
 FileName
